@@ -6,28 +6,29 @@ import Proofs.Attr
   xtuml/meta.py `Class.__getattr__/__setattr__/__delattr__`, `MetaClass.new`, `MetaModel.find_metaclass/
   define_class`, `WhereEqual`).  Names are ASCII; `fold` is `str.upper()` on ASCII.
 
-  Domain of `one_cell` (predicate `Valid`): histories of ANY length whose writes address declared attributes
-  (writes to referential ones are rejected and change nothing), whose reads are arbitrary, and whose deletes
-  address a non-referential attribute THAT CURRENTLY HOLDS A VALUE.  Outside it the code does something the
-  property does not describe: `Class.__delattr__` on a name with no matching `__dict__` key deletes the LAST
-  key of `__dict__` (see the `example` at the end); after a delete, a read raises AttributeError (`cellRead none`).
+  `one_cell` covers EVERY history of writes, reads and deletes, of any length, under any spellings: writes to
+  a referential attribute are rejected and change nothing, a delete of an attribute that holds no value (a
+  referential attribute never does) is rejected with AttributeError and changes nothing, names that are no
+  spelling of a declared attribute live in cells of their own.  After a delete, a read raises AttributeError
+  (`cellRead none`).  Hypotheses: the declared names of the class are distinct after case folding, referential
+  names are declared names (`WF`), and the initial dictionary is `Good` (as every constructor leaves it).
 -/
 namespace PyxProps.C10
 open Pyx.Attr
 
-/-- After ANY covered history, with independently chosen spellings at every step: the dictionary holds no key
-    that folds to a declared name other than the declared name itself (and no referential key); reading a
+/-- After ANY history, with independently chosen spellings at every step: the dictionary holds no key that
+    folds to a declared name other than the declared name itself (and no referential key); reading a
     non-referential attribute under EVERY spelling yields the last value written to its case-folded name
     (AttributeError when the last event was a delete); that is also what `serialize_instance` reads (it reads
-    under the declared name) and what a `where_eq` item under any spelling compares against. -/
-theorem one_cell (c : Cls) (hwf : WF c) (d0 : Dict) (hg : Good c d0) (h : List Op)
-    (hv : Valid c (absOf c d0) h) :
+    under the declared name) and what a `where_eq` item under any spelling compares against.  Every prefix of a
+    history is a history, so this holds at every moment: `__dict__` NEVER holds a stray spelling. -/
+theorem one_cell (c : Cls) (hwf : WF c) (d0 : Dict) (hg : Good c d0) (h : List Op) :
     Good c (run c d0 h) ∧
     ∀ a ∈ c.names, a ∉ c.refs → ∀ sp, fold sp = fold a →
       getattr c (run c d0 h) sp = cellRead (lastValue c (fold a) (dget d0 a) h) ∧
       getattr c (run c d0 h) sp = getattr c (run c d0 h) a ∧
       ∀ v, whereItemHolds c (run c d0 h) sp v = decide (lastValue c (fold a) (dget d0 a) h = some v) := by
-  obtain ⟨hg', hs'⟩ := run_sim hwf h d0 (absOf c d0) hg (sim_absOf hwf d0) hv
+  obtain ⟨hg', hs'⟩ := run_sim hwf h d0 (absOf c d0) hg (sim_absOf hwf d0)
   refine ⟨hg', ?_⟩
   intro a ha hr sp hf
   have hcell : dget (run c d0 h) a = lastValue c (fold a) (dget d0 a) h := by
@@ -44,15 +45,21 @@ theorem one_cell (c : Cls) (hwf : WF c) (d0 : Dict) (hg : Good c d0) (h : List O
   | none => simp [cellRead]
   | some x => simp [cellRead]
 
-/-- every prefix of a covered history is covered: the conclusions of `one_cell` hold at every moment, so
-    `__dict__` NEVER holds a stray spelling of a declared name -/
-theorem one_cell_every_moment (c : Cls) (m : Cells) (h1 h2 : List Op) (hv : Valid c m (h1 ++ h2)) :
-    Valid c m h1 := valid_append h1 h2 m hv
+/-- what a delete does, in every reachable (`Good`) state and under ANY spelling `sp` of a declared attribute `a`:
+    if `a` holds a value exactly its key is removed; if it holds none — in particular when `a` is referential —
+    AttributeError is raised and the dictionary is untouched (no other attribute loses its value) -/
+theorem delete_spec (c : Cls) (d : Dict) (hg : Good c d) (a : Name) (ha : a ∈ c.names)
+    (sp : Name) (hf : fold sp = fold a) :
+    (dget d a ≠ none → delattr d sp = (ddel d a, DelRes.ok)) ∧
+    (dget d a = none → delattr d sp = (d, DelRes.attrError)) ∧
+    (a ∈ c.refs → delattr d sp = (d, DelRes.attrError)) := by
+  refine ⟨delattr_plain hg ha hf, delattr_absent hg ha hf, ?_⟩
+  intro hr
+  exact delattr_absent hg ha hf ((dget_none_iff d a).mpr (fun hk => hg.2 a hk hr))
 
-/-- `serialize_instance` after any covered history: per declared attribute the cell (the property for a
+/-- `serialize_instance` after any history: per declared attribute the cell (the property for a
     referential attribute) -/
-theorem serialised_is_cell (c : Cls) (hwf : WF c) (d0 : Dict) (hg : Good c d0) (h : List Op)
-    (hv : Valid c (absOf c d0) h) :
+theorem serialised_is_cell (c : Cls) (hwf : WF c) (d0 : Dict) (hg : Good c d0) (h : List Op) :
     serialReads c (run c d0 h) = c.names.map fun a =>
       if a ∈ c.refs then Read.prop a else cellRead (lastValue c (fold a) (dget d0 a) h) := by
   unfold serialReads
@@ -61,32 +68,67 @@ theorem serialised_is_cell (c : Cls) (hwf : WF c) (d0 : Dict) (hg : Good c d0) (
   by_cases hr : a ∈ c.refs
   · simp [getattr, hr]
   · rw [if_neg hr]
-    exact ((one_cell c hwf d0 hg h hv).2 a ha hr a rfl).1
+    exact ((one_cell c hwf d0 hg h).2 a ha hr a rfl).1
 
 /-- writing a referential attribute under ANY spelling raises the metamodel exception and changes nothing;
-    `Good` holds in every state reachable by a covered history (`one_cell`), so this applies at any moment -/
+    `Good` holds in every state reachable by any history (`one_cell`), so this applies at any moment -/
 theorem referential_write_rejected (c : Cls) (hwf : WF c) (d : Dict) (hg : Good c d) (a : Name)
     (hr : a ∈ c.refs) (sp : Name) (hf : fold sp = fold a) (v : Val) :
     setattr c d sp v = (d, SetRes.metaExc) := setattr_ref hwf hg v hr hf
 
-/-- constructor arguments: defaults, positional values and keywords under ANY spelling of non-referential
-    attributes are one history of writes on the cells — the constructor succeeds, leaves a good dictionary,
-    and each attribute reads (under every spelling) the last value assigned to its case-folded name -/
+/-- constructor arguments: defaults (under declared names), positional values and keywords under ANY names and
+    spellings act as one history of writes on the cells — the constructor never raises, leaves a good
+    dictionary, and each non-referential attribute reads (under every spelling) the last value assigned to its
+    case-folded name; items that name a referential attribute (keywords in any spelling) go to the local
+    dictionary that drives the batch relate and are not written -/
 theorem constructor_keywords_one_cell (c : Cls) (hwf : WF c) (defaults : List (Name × Val)) (args : List Val)
-    (kwargs : List (Name × Val)) (hp : ∀ it ∈ defaults ++ c.names.zip args ++ kwargs, Plain c it.1) :
+    (kwargs : List (Name × Val)) (hd : ∀ it ∈ defaults, it.1 ∈ c.names) :
     (newCore c defaults args kwargs).2 = SetRes.ok ∧
     Good c (newCore c defaults args kwargs).1.dict ∧
     ∀ a ∈ c.names, a ∉ c.refs → ∀ sp, fold sp = fold a →
       getattr c (newCore c defaults args kwargs).1.dict sp =
-        cellRead (lastValue c (fold a) none
-          ((defaults ++ c.names.zip args ++ kwargs).map fun it => Op.write it.1 it.2)) := by
+        cellRead (lastValue c (fold a) none (writesOf c (newItems c defaults args kwargs))) := by
+  have hres : ∀ it ∈ newItems c defaults args kwargs, Resolved c it.1 := by
+    intro it hi
+    simp only [newItems, List.mem_append, List.mem_map] at hi
+    rcases hi with (hi | hi) | ⟨kw, _, rfl⟩
+    · exact Or.inl (hd it hi)
+    · exact Or.inl (List.of_mem_zip hi).1
+    · exact resolved_resolveKw c kw
+  obtain ⟨rd, hass⟩ := assignAll_resolved hwf _ ⟨[], []⟩ hres
   unfold newCore
-  rw [assignAll_plain hwf _ ⟨[], []⟩ hp]
-  have hv := valid_writes (c := c) (defaults ++ c.names.zip args ++ kwargs) (absOf c []) hp
-  obtain ⟨hg, hall⟩ := one_cell c hwf [] (good_nil c) _ hv
+  rw [hass]
+  obtain ⟨hg, hall⟩ := one_cell c hwf [] (good_nil c) (writesOf c (newItems c defaults args kwargs))
   refine ⟨rfl, hg, ?_⟩
   intro a ha hr sp hf
   exact (hall a ha hr sp hf).1
+
+/-- a constructor keyword may be spelled in any letter case, for non-referential AND referential attributes:
+    every spelling of a declared name is first replaced by the declared name, and the constructor only ever sees
+    the replaced list — so `new(…, a_id=1)` and `new(…, A_Id=1)` are the same call -/
+theorem constructor_keyword_spelling (c : Cls) (hwf : WF c) :
+    (∀ a ∈ c.names, ∀ sp, fold sp = fold a → ∀ v, resolveKw c (sp, v) = (a, v)) ∧
+    (∀ defaults args kwargs, newCore c defaults args kwargs = newCore c defaults args (kwargs.map (resolveKw c))) := by
+  constructor
+  · intro a ha sp hf v
+    unfold resolveKw
+    rw [declMatch_eq hwf ha hf]; rfl
+  · intro defaults args kwargs
+    have hidem : ∀ kw, resolveKw c (resolveKw c kw) = resolveKw c kw := by
+      intro kw
+      unfold resolveKw
+      cases hd : declMatch c kw.1 with
+      | none => simp [hd]
+      | some a =>
+        have h1 : declMatch c a = declMatch c kw.1 := by
+          unfold declMatch; rw [(declMatch_some hd).2]
+        simp [h1, hd]
+    unfold newCore newItems
+    rw [List.map_map]
+    congr 2
+    apply List.map_congr_left
+    intro kw _
+    exact (hidem kw).symm
 
 /-- class names: after ANY sequence of `define_class` calls, `find_metaclass` under every spelling of a kind
     returns the first class defined under that case-folded name (a later definition under another spelling is
@@ -128,21 +170,21 @@ def cB : Cls :=
 def dB : Dict := [(['I', 'd'], .int 7), (['N', 'm'], .str [])]
 def hB : List Op :=
   [.write ['N', 'M'] (.int 1), .write ['n', 'm'] (.int 2), .read ['n', 'M'], .write ['a', '_', 'i', 'D'] (.int 9),
-   .delete ['n', 'M'], .write ['n', 'M'] (.int 3), .write ['i', 'D'] (.int 4)]
+   .delete ['n', 'M'], .delete ['N', 'M'], .delete ['a', '_', 'I', 'D'], .write ['n', 'M'] (.int 3),
+   .write ['i', 'D'] (.int 4), .delete ['z', 'z']]
 
 example : WF cB := by unfold WF; decide
 example : Good cB dB := by unfold Good; decide
-example : Valid cB (absOf cB dB) hB := by
-  refine ⟨⟨['N', 'm'], by decide, by decide⟩, ⟨['N', 'm'], by decide, by decide⟩, ⟨['A', '_', 'I', 'd'], by decide, by decide⟩,
-    ⟨['N', 'm'], by decide, by decide, by decide⟩, by decide, ⟨['N', 'm'], by decide, by decide⟩,
-    ⟨['I', 'd'], by decide, by decide⟩, trivial⟩
 example : run cB dB hB = [(['I', 'd'], .int 4), (['N', 'm'], .int 3)] := by decide
 example : getattr cB (run cB dB hB) ['N', 'M'] = .val (.int 3) ∧ fold ['n', 'M'] = fold ['N', 'm'] := by decide
-/-- why deletes of absent names are outside the domain: `del inst.zz` removes the LAST key of `__dict__` -/
-example : delattr dB ['z', 'z'] = ([(['I', 'd'], .int 7)], .ok) := by decide
-example : delattr [] ['z', 'z'] = ([], .keyError) := by decide
-/-- a constructor keyword for a referential attribute is recognised only in the association's own spelling -/
-example : (newCore cB [] [] [(['a', '_', 'i', 'd'], .int 1)]).2 = .metaExc ∧
+/-- regression examples for the two repaired behaviours: a delete that finds no value (second delete of the same
+    attribute, delete of a referential attribute, delete on an empty dictionary) raises AttributeError and
+    removes nothing -/
+example : delattr [(['I', 'd'], .int 7)] ['n', 'M'] = ([(['I', 'd'], .int 7)], .attrError) := by decide
+example : delattr dB ['a', '_', 'i', 'D'] = (dB, .attrError) := by decide
+example : delattr [] ['z', 'z'] = ([], .attrError) := by decide
+/-- … and a constructor keyword for a referential attribute is recognised in any spelling -/
+example : (newCore cB [] [] [(['a', '_', 'i', 'd'], .int 1)]) = (⟨[], [(['A', '_', 'I', 'd'], .int 1)]⟩, .ok) ∧
     (newCore cB [] [] [(['A', '_', 'I', 'd'], .int 1)]) = (⟨[], [(['A', '_', 'I', 'd'], .int 1)]⟩, .ok) := by decide
 
 end PyxProps.C10
